@@ -271,7 +271,7 @@ def measure(pattern, flags, tree, hit_path, progress):
             if t > 0.3:
                 break
             n = int(n * 1.5) + 1 if t < 0.005 else n + max(2, n // 8)
-        if len(pts) >= 2 and pts[-1][2] >= 0.05:
+        if len(pts) >= 2 and pts[-1][2] >= 0.25 and min(_time_call(pat, strs[ki]) for _ in range(2)) >= 0.2:      # reached the 0.3 s budget (twice over: not a scheduling hiccup)
             (n2, l2, t2) = pts[-1]
             half = [q for q in pts[:-1] if q[1] * 2 <= l2] or [pts[0]]
             (n1, l1, t1) = half[-1]
